@@ -27,6 +27,11 @@ def realize_op(project, op):
             if name == res.name and os.path.isdir(ppath):
                 # public, non-exact form: destination is the containing folder
                 return rc.MoveResource(res, parent)
+        if os.path.isdir(project._get_resource_path(dst)):
+            # the destination name is (still) taken by a folder when the change
+            # object is built, although it is free by the time this sub-change
+            # runs; say exactly what is meant instead of "into that folder"
+            return rc.MoveResource(res, dst, exact=True)
         return rc.MoveResource(res, dst)
     if k == "remove":
         _, path, skind = op[:3]
@@ -49,13 +54,19 @@ def realize(project, rec):
     return cs
 
 
-def struct_of(change):
+def struct_of(change, nested_time=True, _top=True):
     """Independent structural view of a rope Change (order, description,
-    timestamp, nesting, paths, resource kinds, new/old contents)."""
+    timestamp, nesting, paths, resource kinds, new/old contents).
+
+    nested_time=False leaves out the timestamps of *nested* change sets: an
+    inner set restamps itself whenever it is (re)performed, also inside an
+    outer composite that is then rolled back; that stamp is not part of what
+    "the history is unchanged" means."""
     from rope.base import change as rc
 
     if isinstance(change, rc.ChangeSet):
-        return ["set", change.description, change.time, [struct_of(c) for c in change.changes]]
+        t = change.time if (nested_time or _top) else None
+        return ["set", change.description, t, [struct_of(c, nested_time, False) for c in change.changes]]
     if isinstance(change, rc.ChangeContents):
         return ["edit", change.resource.path, _kind(change.resource), change.new_contents, change.old_contents]
     if isinstance(change, rc.MoveResource):
@@ -77,9 +88,12 @@ def _kind(res):
     return "d" if res.is_folder() else "f"
 
 
-def history_struct(project):
+def history_struct(project, nested_time=True):
     h = project.history
-    return [[struct_of(c) for c in h.undo_list], [struct_of(c) for c in h.redo_list]]
+    return [
+        [struct_of(c, nested_time) for c in h.undo_list],
+        [struct_of(c, nested_time) for c in h.redo_list],
+    ]
 
 
 def history_ids(project):
